@@ -80,11 +80,32 @@ std::string Dir;        // work directory (argv[1]); the db is Dir/rock
 std::string CurId = "-"; // case being evaluated (for the abort handler)
 FILE *RealErr = nullptr;
 
+std::string LogPath;    // what the code under test prints through `stderr` (debugs() stub, xassert) goes here
+
 void onAbort(int)
 {
-    // an assertion of the code under test fired: report the case as crashed, the check restarts the driver
-    char b[256];
-    const int n = snprintf(b, sizeof b, "{\"id\":\"%s\",\"out\":{\"done\":false,\"crash\":\"abort\",\"ent\":[],\"free\":[]}}\n", CurId.c_str());
+    // an assertion of the code under test fired: report the case as crashed (with the assertion text), the check restarts the driver
+    char tail[600];
+    char msg[300] = "";
+    const int lfd = open(LogPath.c_str(), O_RDONLY);
+    if (lfd >= 0) {
+        const off_t end = lseek(lfd, 0, SEEK_END);
+        const off_t from = end > off_t(sizeof(tail) - 1) ? end - off_t(sizeof(tail) - 1) : 0;
+        const ssize_t n = pread(lfd, tail, sizeof(tail) - 1, from);
+        if (n > 0) {
+            tail[n] = 0;
+            const char *a = nullptr;
+            for (const char *p = tail; (p = strstr(p, "assertion failed: ")); p += 1) a = p; // the last one
+            if (a) {
+                size_t k = 0;
+                for (a += 18; *a && *a != '\n' && k + 1 < sizeof(msg); ++a)
+                    msg[k++] = (*a == '"' || *a == '\\' || (unsigned char)*a < 32) ? '\'' : *a;
+                msg[k] = 0;
+            }
+        }
+    }
+    char b[700];
+    const int n = snprintf(b, sizeof b, "{\"id\":\"%s\",\"out\":{\"done\":false,\"crash\":\"abort: %s\",\"ent\":[],\"free\":[]}}\n", CurId.c_str(), msg);
     if (write(1, b, n)) {}
     _exit(77);
 }
@@ -149,6 +170,7 @@ Made setUp(const int64_t slotSize, const int64_t maxObj)
 std::string rebuild()
 {
     StoreController::store_dirs_rebuilding = 1;
+    getCurrentTime(); // squid's main() has set the clock long before any rebuild starts
     storeRebuildStart();
     try {
         Store::Root().init();
@@ -228,6 +250,7 @@ void runImageCase(const std::vector<std::string> &t)
 {
     const std::string id = t.at(1);
     CurId = id;
+    if (stderr != RealErr) { if (ftruncate(fileno(stderr), 0)) {} rewind(stderr); }
     const int n = atoi(t.at(2).c_str());
     std::vector<int> kf;
     { std::istringstream in(t.at(3)); std::string x; while (std::getline(in, x, ',')) kf.push_back(atoi(x.c_str())); }
@@ -309,8 +332,11 @@ int main(int argc, char *argv[])
     Dir = argv[1];
     mkdir(Dir.c_str(), 0700);
     RealErr = stderr;
-    if (!getenv("U_ROCK_VERBOSE"))
-        stderr = fopen("/dev/null", "w"); // the debugs() stub prints every important message; fd 2 stays for the sanitizers
+    LogPath = Dir + ".log";
+    if (!getenv("U_ROCK_VERBOSE")) {
+        // the debugs() stub and xassert() print through `stderr`; keep that in a file (fd 2 stays for the sanitizers)
+        if (FILE *f = fopen(LogPath.c_str(), "w+")) { setvbuf(f, nullptr, _IONBF, 0); stderr = f; }
+    }
     signal(SIGABRT, onAbort);
 
     // as MyTestProgram::startup() of tests/testRock.cc
